@@ -189,11 +189,16 @@ def u2_files(sc, root: str) -> dict:
     files = {f"{sid}/__init__.py": "", f"{sid}/sub/__init__.py": "", f"{sid}/sub/deep/__init__.py": "", f"{sid}/other/__init__.py": "",
              f"{sid}/other/fill.py": "def fill" + s + "() -> int:\n    ...\n",
              f"{sid}/sub/deep/{nm['m1']}.py": decl(1), f"{sid}/sub/{nm['m2']}.py": decl(2)}
+    if sc.get("variant") == "sharedbase":    # both classes in one module, derived from one private class with a public method
+        files[f"{sid}/sub/deep/{nm['m1']}.py"] = (f"class _Base{s}:\n    def m_shared(self, from_base: int) -> int:\n        ...\n\n\n"
+                                                  f"class {nm[1]}(_Base{s}):\n    def m_d1(self) -> int:\n        ...\n\n\n"
+                                                  f"class {nm[2]}(_Base{s}):\n    def m_shared(self, from_own: int) -> int:\n        ...\n\n    def m_d2(self) -> int:\n        ...\n")
+        files[f"{sid}/sub/{nm['m2']}.py"] = "def fillb" + s + "() -> int:\n    ...\n"
     if sc.get("variant") == "initdecl":      # declaration 1 lives in the package file; the package keeps a module of its own
         files[f"{sid}/sub/deep/{nm['m1']}.py"] = "def fillinit" + s + "() -> int:\n    ...\n"
         files[f"{sid}/sub/deep/__init__.py"] = decl(1)
     for e in sc["exports"]:
-        mod = ".".join([root, sid, "sub", "deep", nm["m1"]] if e["tgt"] == 1 else [root, sid, "sub", nm["m2"]])
+        mod = ".".join([root, sid, "sub", "deep", nm["m1"]] if e["tgt"] == 1 or sc.get("variant") == "sharedbase" else [root, sid, "sub", nm["m2"]])
         line = f"from {mod} import {nm[e['tgt']]}" + (f" as {e['alias']}{s}" if e["alias"] else "") + "\n"
         if sc.get("variant") == "samemodule":      # the module as a whole
             line = f"from {'.'.join([root, sid, 'sub', 'deep'])} import {nm['m1']}\n"
@@ -220,7 +225,8 @@ def u2_observe(sc, stubs: Stubs, rootname: str, idx: dict | None = None) -> dict
                     if m.pyname in ("m_d1", "m_d2"):
                         tgt = int(m.pyname[-1])
             if tgt:
-                occs[tgt].append({"home": [seg.replace(mark, "") for seg in file_home(f, rootname, sid)], "name": d.pyname.replace(mark, "")})
+                occs[tgt].append({"home": [seg.replace(mark, "") for seg in file_home(f, rootname, sid)], "name": d.pyname.replace(mark, ""),
+                                  "members": [m.pyname for m in d.members if not m.pyname.startswith("_")]})
     jp = {1: "absent", 2: "absent"}
     if idx is not None:
         for t, path in ((1, ["sub", "deep", nm["m1"]]), (2, ["sub", nm["m2"]])):
